@@ -35,6 +35,9 @@ func (c *Ctx) fieldWrites() map[*types.Var][]fieldWrite {
 		for _, fd := range c.allFuncDecls(role) {
 			fd := fd
 			add := func(e ast.Expr, how string, pos token.Pos) {
+				if underConstruction(info, fd, e) {
+					return // a field of an object created in this very function: still construction
+				}
 				if f := selectorField(info, e); f != nil {
 					out[f.Origin()] = append(out[f.Origin()], fieldWrite{Field: f.Origin(), Pos: pos, How: how, In: fd})
 				}
@@ -83,6 +86,38 @@ func (c *Ctx) fieldWrites() map[*types.Var][]fieldWrite {
 	}
 	c.cache["fieldWrites"] = out
 	return out
+}
+
+// underConstruction: e is X.f where X is a local variable whose only definition in fd is a
+// composite literal, its address, or new(T): the object has not left the function yet.
+func underConstruction(info *types.Info, fd *ast.FuncDecl, e ast.Expr) bool {
+	se, ok := ast.Unparen(e).(*ast.SelectorExpr)
+	if !ok {
+		return false
+	}
+	id, ok := ast.Unparen(se.X).(*ast.Ident)
+	if !ok {
+		return false
+	}
+	v, ok := info.Uses[id].(*types.Var)
+	if !ok || v.IsField() || v.Parent() == nil || v.Parent() == v.Pkg().Scope() {
+		return false
+	}
+	init := initOf(info, fd, id)
+	if init == nil {
+		return false
+	}
+	init = ast.Unparen(init)
+	if u, ok := init.(*ast.UnaryExpr); ok && u.Op == token.AND {
+		init = ast.Unparen(u.X)
+	}
+	if _, ok := init.(*ast.CompositeLit); ok {
+		return true
+	}
+	if call, ok := init.(*ast.CallExpr); ok && isBuiltinCall(info, call, "new") {
+		return true
+	}
+	return false
 }
 
 func isSyncType(t types.Type) bool {
